@@ -129,6 +129,24 @@ func states() map[int64]string {
 	return res
 }
 
+// CountGoroutines returns the number of goroutines whose stack contains the function name.
+func CountGoroutines(fn string) int {
+	stackMu.Lock()
+	defer stackMu.Unlock()
+	n := runtime.Stack(stackBuf, true)
+	for n == len(stackBuf) && len(stackBuf) < 1<<26 {
+		stackBuf = make([]byte, 2*len(stackBuf))
+		n = runtime.Stack(stackBuf, true)
+	}
+	c := 0
+	for _, blk := range bytes.Split(stackBuf[:n], []byte("\n\n")) {
+		if bytes.Contains(blk, []byte(fn)) {
+			c++
+		}
+	}
+	return c
+}
+
 func lockWait(st string) bool {
 	switch st {
 	case "sync.Mutex.Lock", "sync.RWMutex.Lock", "sync.RWMutex.RLock", "semacquire":
@@ -185,6 +203,13 @@ func Pair(x sync.Locker, a, b func(), advances int) (ga, gb *G, trace string, st
 	gb = Go(b)
 	nb, _ := WaitParked(parkWait, ga, gb)
 	trace = fmt.Sprintf("harness holds the lock; A started (parked=%d); B started (parked=%d)", na, nb)
+	if advances > 0 {
+		// sync.Mutex (also the writer mutex inside an RWMutex) enters starvation mode when a woken waiter that has waited for
+		// more than 1 ms finds the mutex taken again: from then on Unlock hands the mutex to the head of the queue and a
+		// goroutine that asks again queues at the tail.  The hand-over below barges in front of the woken waiter, so after it
+		// the queued operations alternate strictly section by section: A1, B1, A2, B2 — the schedule a write/write split needs.
+		time.Sleep(3 * time.Millisecond)
+	}
 	for i := 0; i < advances; i++ {
 		x.Unlock()
 		x.Lock()
